@@ -13,6 +13,8 @@
                 field (B - L)
   LEN-CARRY     the words of the running bit length form one carry chain: every word that is added to has its carry-out
                 (comparison of the new value with the saved old one) consumed by exactly the next word
+  LEN-UNIT      what one step adds to the low word of the bit length is a constant or provably small, or its high part goes
+                to the next word (accounting for a whole call at once must not drop length / 2^29)
   PKCS7-REJECT  the CBC unpadding returns a length only with 0 < pad <= 16 in force and after a comparison of block octets
                 with the pad length whose failing side is an error return; the public decryption turns that error into
                 RLC_ERR
@@ -474,6 +476,48 @@ def rule_len_carry(ctx, prog, chk):
                             hit = True
                 if hit:
                     edges.setdefault(w, set()).add(w2)
+        # LEN-UNIT: what is added to the lowest word either cannot exceed it (a constant, or a variable the facts bound) or
+        # its high part is added to a higher word as well
+        lows = [w for w in adds if not any(w in ts for ts in edges.values())]
+        if len(lows) == 1 and edges.get(lows[0]):
+            g = ctx.xcfg(prog, fn)
+            F = Facts(prog, g)
+            for el, sub in adds[lows[0]]:
+                amt = sub[3]
+                amts = [amt]
+                a0 = ir.strip_casts(fn.resolve(amt))
+                if isinstance(a0, list) and a0 and a0[0] == "x":
+                    # an element of a local scratch array (addTemp[3] = length; ... += addTemp[3]): what is stored there
+                    ak = key(fn, a0)
+                    st_rhs = [x[2] for e2 in fn.all_elements() for x in ir.walk(fn, e2.e) if x[0] == "=" and key(fn, ir.strip_casts(x[1])) == ak]
+                    if st_rhs:
+                        amts = st_rhs
+                if all(_const(fn, a) is not None for a in amts):
+                    chk.ok("LEN-UNIT", fn, "Length", "a constant number of bits per step", line=el.line)
+                    continue
+                vs = set(x[1] for a in amts for x in ir.walk(fn, a, follow_refs=True) if x[0] == "v")
+                vs = set(v for v in vs if "pc" not in fn.vars[v])
+                bounded = bool(vs)
+                for nd in g.nodes:
+                    if nd.kind == "el" and nd.el is el:
+                        st = F.at(nd)
+                        if st is None or st is engines.UNIVERSE:
+                            continue
+                        for v in vs:
+                            if not any(a[0] == "cmp" and a[1] == ("v", v) and a[2] in ("<", "<=") and isinstance(a[3], int) and a[3] <= (1 << 28) for a in st):
+                                bounded = False
+                high = False
+                for w2 in words:
+                    if w2 == lows[0]:
+                        continue
+                    for el2, sub2 in adds.get(w2, ()):
+                        if any(x[0] == "b" and x[1] == ">>" and any(y[0] == "v" and y[1] in vs for y in ir.walk(fn, x[2], follow_refs=True)) for x in ir.walk(fn, sub2[3], follow_refs=True)):
+                            high = True
+                if bounded or high:
+                    chk.ok("LEN-UNIT", fn, "Length", "the amount added to the low word is bounded, or its high part is added to the next word", line=el.line)
+                else:
+                    chk.fail("LEN-UNIT", fn, "Length", "`%s` adds an amount computed from a length (%s) to the low word of the bit count; what does not fit that word is neither refused nor added to the next word, only a carry of 1 is: from 2^29 octets in one call on the length field is wrong" % (
+                        fn.fmt(sub)[:60], ", ".join(fn.vars[v]["n"] for v in sorted(vs)) or "?"), line=el.line)
         srcs = [w for w in adds if edges.get(w)]
         tgts = [t for w in srcs for t in edges[w]]
         ok = len(srcs) >= len(words) - 1 and len(set(tgts)) == len(tgts) and set(tgts) | set(srcs) == words and len(tgts) == len(words) - 1
